@@ -48,16 +48,16 @@ def kernel_case(cid: str, M: list, inst, algo: str, x0: list, moves: list) -> di
             "x0": list(x0), "moves": [list(p) for p in moves]}
 
 
-def solve_case(cid: str, M: list, inst, algo: str, seed: int, budget: int) -> dict:
+def solve_case(cid: str, M: list, inst, algo: str, seed: int, budget: int, raw: bool = False) -> dict:
     m = ts.mods()
-    proc = ts.StubProcess(inst, seed, budget)
+    proc = ts.StubProcess(inst, seed, budget, raw)
     alg = m["EA"](inst) if algo == "ea" else m["FEA"](inst)
     clause = None
     try:
         alg.solve(proc)
     except IndexError:
         clause = "index-error-in-solve"
-    rec = {"id": cid, "n": len(M), "M": M, "algo": algo, "ub": small(int(inst.tour_length_upper_bound)),
+    rec = {"id": cid, "n": len(M), "M": M, "algo": algo, "ub": 0 if raw else small(int(inst.tour_length_upper_bound)),
            "steps": proc.trace, "hidx": [], "seed": seed, "budget": budget}
     if clause:
         rec["_index_error"] = True
@@ -130,6 +130,28 @@ def run(prop: str, tier: str, seed: int) -> int:
             cases.append(rec)
             rep.family("solve-many-cities(127..300)", len(rec["steps"]), len(rec["steps"]))
             rep.nontrivial += len(rec["steps"])
+    # distances far beyond 32 bits (the instance stores them as int64; upper bounds up to 10^15 are admitted):
+    # the EA's O(1) length update must not lose bits
+    from ..core import big
+    for k in range({"quick": 12, "thorough": 80}[tier]):
+        n = rng.randint(5, 10)
+        hi = rng.choice([3 * 10 ** 9, 5 * 10 ** 9, 10 ** 11, 10 ** 13])
+        M = [[0] * n for _ in range(n)]
+        for i in range(n):
+            for j in range(i):
+                M[i][j] = M[j][i] = rng.choice([rng.randint(1, 9), rng.randint(hi // 2, hi), rng.randint(1, hi)])
+        inst = ts.make_instance(M)
+        rec = solve_case(f"huge-distances-{k}", M, inst, "ea", rng.randrange(1 << 30), rng.choice([30, 120, 400]), raw=True)
+        if rec.pop("_index_error", False):
+            rep.violations.append(core.Verdict(rec["id"], "index-error:frequency-table-or-tour", rec))
+            continue
+        steps = []
+        for st in rec["steps"]:
+            steps.append({"x": st["x"], "y": big(int(st["y"])) if int(st["y"]) >= 0 else [-1]})
+        cases.append({"id": rec["id"], "big": 1, "n": n, "M": [[big(v) for v in r] for r in M], "algo": "ea",
+                      "steps": steps, "hidx": [], "ub": 0})
+        rep.family("solve-huge-distances(ea)", len(steps), len(steps))
+        rep.nontrivial += len(steps)
     I = ts.mods()["Instance"]
     for nm in (["gr17", "gr21", "bays29"] if tier == "quick" else ["gr17", "gr21", "gr24", "fri26", "bays29", "att48",
                                                                    "berlin52", "eil51", "st70"]):
